@@ -81,10 +81,11 @@ class CustomFunctions(_Sym):
           'value is the value of the call, also when a built-in has the same name'
     functions = ('Parser.set_function', 'Parser.call_function', 'grammarparser.lexer.t_FUNCTION', 'grammarparser.parser.p_expression_wargs',
                  'grammarparser.parser.p_expression_function', 'formulas.Dispatcher.get_for')
-    bounds = 'function names of 1..3 letters (symbolic: ranges over the ~30 built-in names of that length and all others), 0 or 2 arguments'
+    bounds = 'function names of 1..3 letters (symbolic: ranges over the ~30 built-in names of that length and all others), 0 or 2 ' \
+             'arguments; registered on a fresh parser, after the name was already called once, and over an earlier registration'
 
     def cases(self, tier):
-        return [{'len': n, 'args': a} for n in (1, 2, 3) for a in (0, 2)]
+        return [{'len': n, 'args': a, 'hist': h} for n in (1, 2, 3) for a in (0, 2) for h in (None, 'called_before', 'reregistered')]
 
     def build(self, e, p):
         return {'name': e.fresh_str('n', p['len'], alphabet=LETTERS), 'a': e.fresh_int('a'), 'b': e.fresh_int('b'), 'r': e.fresh_int('r')}
@@ -96,10 +97,15 @@ class CustomFunctions(_Sym):
         def rec(*args):
             calls.append(args)
             return inp['r']
-        P.set_function(inp['name'], rec)
         P.set_variable('va', inp['a'])
         P.set_variable('vb', inp['b'])
         text = inp['name'] + ('(va,vb)' if p['args'] else '()')
+        if p.get('hist') == 'called_before':
+            P.parse(text)                       # the name is used once before it is registered
+        elif p.get('hist') == 'reregistered':
+            P.set_function(inp['name'], lambda *a: 0)
+            P.parse(text)
+        P.set_function(inp['name'], rec)
         out = P.parse(text)
         return {'out': out, 'calls': calls}
 
